@@ -460,9 +460,10 @@ struct or pointer-to-struct type (name resolution of the current code, `cfg.dn =
 `Conf`: every member the checker resolves can be fetched and conforms, so pointers typed as structs are
 not nil), slices of structs (index, `#`, the builtins with closures over struct elements), `map[string]interface{}` values (member, index, `in`, `len`; the result an `interface{}`, of
 which nothing is claimed but that the access does not fail), indexing a `[]interface{}`, `in` on structs,
-map literals, and — behind hypotheses on the world, switched on by the two flags of `inFrag2` — calls of
-environment functions (`WorldConforms`) and `matches` (`RegexTotal`: the patterns met compile; `Spec.eval`
-reports a pattern that does not compile in the type class, although it depends on the pattern's value) and
+map literals, and — behind hypotheses on the world, switched on by the flags `FragOpts` of `inFrag2` — calls of
+environment functions (`WorldConforms`) and `matches` (`RegexTotal`: EVERY pattern compiles — stronger than a faithful regexp
+world offers, where `"("` does not compile; `Spec.eval` reports a pattern that does not compile in the type
+class, so the theorem assumes that failure away rather than tolerating it: a limitation, see the report) and
 method calls `x.m(…)` on struct-typed receivers (`MethodsConform`).  `typed2` is "every operand has a static type the construct's rule is sound for": scalar
 operands for the scalar operators and the predicate's body, a slice of scalars (`[]int`, `[]string`, …)
 where a collection is expected, an integer (not `interface{}`) index.  This excludes, explicitly, the constructs
@@ -473,10 +474,12 @@ slice type `[]T` (it differs from the run-time `[]interface{}`: they are in the 
 slice of scalars, a value of that type (for a slice: the element tag and every element).  The tolerated
 failures are the value-dependent ones, `ValueDep`: division by zero, index out of range, memory budget. -/
 
-/-- **Soundness on the extended fragment**: if `Check` accepts `n` with type `τ` (a scalar or a slice of
-scalars), evaluating the annotated tree with the reference evaluator yields a value of type `τ` — for a
-slice: with the static element tag and all elements of the element type — or fails with a
-value-dependent error; never with a type error. -/
+/-- **Soundness on the extended fragment**: if `Check` accepts `n` with type `τ` — any type `vtyOf`
+classifies: a scalar, a slice of scalars (then with the static element tag and all elements of the element
+type), a `[]interface{}`, a struct or pointer to struct (members conform, `Conf`), a slice of structs, a
+`map[string]interface{}`, or an interface (then nothing is claimed of the value) — evaluating the annotated
+tree with the reference evaluator yields a value of that type or fails with a value-dependent error; never
+with a type error. -/
 theorem check_sound_collections_partial (cfg : CheckCfg) (c : Spec.SCfg) (henv : EnvConforms2 cfg c.env)
     (hdn : cfg.dn = NDefects.asIs)
     (n n' : Node) (τ : OTy) (V : VTy) (hfrag : inFrag2 {} n = true) (hstatic : typed2 cfg [] n = true)
